@@ -33,7 +33,19 @@ pub fn observed_l_u(p: &RangeConstraintParameters) -> (usize, usize) {
     (l, u)
 }
 
-/// Reference verdict for a range constraint from its wire atoms.
+/// Weight base of the digit sum. The property fixes the range [0, 2^63) = [0, b^L): with L digits the
+/// base is b = 2^(63/L) (128 for L = 9), *whatever* the number of published digit signatures is - a
+/// parameter set publishing a 129th signature must not widen the range. If 63/L is not integral the
+/// number of published signatures is the only candidate left.
+pub fn digit_base(l: usize, u: usize) -> u64 {
+    if l > 0 && 63 % l == 0 && 63 / l < 32 {
+        1u64 << (63 / l)
+    } else {
+        u as u64
+    }
+}
+
+/// Reference verdict for a range constraint from its wire atoms (`u` = weight base).
 pub fn range_ref(pk: &PkAtoms, u: usize, rc: &Image, c: &Scalar, expected: &Scalar) -> bool {
     let mut ok = true;
     let mut sum = Scalar::zero();
@@ -204,7 +216,7 @@ fn honest_oracle(c: &HonestCase, rec: &Rec) -> R {
     };
     let pk2 = PkAtoms::from_image(&Image::must(&*params2), "public_key");
     let lib = rc.verify_range_constraint(&params2, ch2, expected);
-    let reference = range_ref(&pk2, u, &rimg, &ch2.to_scalar(), &expected);
+    let reference = range_ref(&pk2, digit_base(l, u) as usize, &rimg, &ch2.to_scalar(), &expected);
     rec.eval(1);
     // by construction: accepted iff linked slot, same params, same challenge — except that two slots
     // holding the same value with the same commitment scalar cannot occur here (only one is linked)
@@ -357,7 +369,7 @@ fn asm_oracle(c: &AsmCase, rec: &Rec) -> R {
     let mut upow: u128 = 1;
     for d in &claim {
         encoded = encoded.wrapping_add(upow.wrapping_mul(*d as u128));
-        upow = upow.wrapping_mul(u as u128);
+        upow = upow.wrapping_mul(digit_base(l, u) as u128);
     }
     let to_scalar = |x: u128| -> Scalar {
         let mut b = [0u8; 32];
@@ -389,7 +401,7 @@ fn asm_oracle(c: &AsmCase, rec: &Rec) -> R {
     let mut up = Scalar::one();
     for b in &builders {
         cs += up * b.conjunction_commitment_scalars()[0];
-        up *= Scalar::from(u as u64);
+        up *= Scalar::from(digit_base(l, u));
     }
     let ped = PedersenParameters::<G1Projective, 1>::new(&mut rng(0x5000));
     let main = CommitmentProofBuilder::generate_proof_commitments(&mut r, Message::<1>::from(linked_scalar), &[Some(cs)], &ped);
@@ -410,7 +422,7 @@ fn asm_oracle(c: &AsmCase, rec: &Rec) -> R {
 
     let lib = rc.verify_range_constraint(&p, ch, expected);
     let rimg = Image { bytes: bytes.clone(), atoms: Image::must(&rc).atoms };
-    let reference = range_ref(&pka, u, &rimg, &ch.to_scalar(), &expected);
+    let reference = range_ref(&pka, digit_base(l, u) as usize, &rimg, &ch.to_scalar(), &expected);
     rec.eval(1);
     let by_construction = all_true && link_is_true;
     ensure!(reference == by_construction, "harness/reference-disagrees-with-construction", "assembled constraint: reference {} vs construction {} ({} / {})", reference, by_construction, plan_label, link_label);
@@ -569,7 +581,7 @@ fn cancel_oracle(c: &CancelCase, rec: &Rec) -> R {
     };
     // digits all 0 with honest blinded signatures, then digits 0 and 1 replaced by the cancelling pair
     let (mut subs, cs) = digit_subs(&m, &vec![0u64; l], &Scalar::zero(), c.seed, 7);
-    cancelling_pair(&m.range_img, &mut subs, &target, u as u64, c.seed);
+    cancelling_pair(&m.range_img, &mut subs, &target, digit_base(l, u), c.seed);
     let ped = PedersenParameters::<G1Projective, 1>::new(&mut rng(0x5000));
     let main = CommitmentProofBuilder::generate_proof_commitments(&mut rng(c.seed), Message::<1>::from(target), &[Some(cs)], &ped);
     let ch = ChallengeBuilder::new().with(&main).with(params).with_bytes(c.seed.to_le_bytes()).finish();
@@ -585,7 +597,7 @@ fn cancel_oracle(c: &CancelCase, rec: &Rec) -> R {
     let rc: RangeConstraint = wire::dec(&img.bytes).map_err(|e| Fail::new("harness/assembled-constraint-undecodable", e))?;
     let expected = main_proof.conjunction_response_scalars()[0];
     let lib = rc.verify_range_constraint(params, ch, expected);
-    let reference = range_ref(&m.range_pk, u, &img, &ch.to_scalar(), &expected);
+    let reference = range_ref(&m.range_pk, digit_base(l, u) as usize, &img, &ch.to_scalar(), &expected);
     rec.eval(1);
     ensure!(!reference, "harness/reference-disagrees-with-construction", "cancelling pair satisfies the per-digit relations");
     // sanity of the construction: the response scalars do sum to the linked response
